@@ -726,9 +726,9 @@ def nest_docs(seed, tier):
 
 class C09(Check):
     rule = "tab-free, CR-free documents (spec examples + token soup with multi-line links, titles, raw tags, code spans, setext headings, definitions); quote prefix '> ' and list markers -, +, 7., 12) with 1..4 spaces"
-    obligations = [("main", "PropsFull", "C09_quote_blocks"), ("main", "PropsFull2", "C09_quote_parse"), ("main", "PropsFull2", "C09_quote_render"), ("main", "PropsFull", "C09_item_blocks"), ("main", "QFull", "parseFull_quote"), ("main", "QFull", "renderDoc_quote"), ("main", "QFull", "parseInlines_quote_leaves"), ("main", "QFullRefuted", "parseFull_quote_qI_refuted"), ("main", "ItemSimMain", "parseBlocks_item"), ("main", "ItemSimQLine", "processLine_item"), ("main", "QS2Spec2", "parseBlocks_quote"), ("main", "QS2Main", "parseBlocks_quote_T58"), ("main", "QRdrOcp", "q_onCloseParagraph"), ("main", "QuoteSimMain", "parseBlocks_quote_main_partial"), ("main", "QuoteSimMain", "parseBlocks_quote_single_root_partial"), ("main", "QuoteSimQLine", "processLine_quoted"), ("main", "QuoteSimTest", "parseBlocks_quote_naive_refuted"), ("main", "SliceNest", "C09_quote"), ("main", "SliceNest", "C09_bullet_item"), ("main", "SliceNest", "C09_ordered_item"), ("main", "SliceMulti", "C09_quote_lines"),
+    obligations = [("main", "PropsFull", "C09_quote_blocks"), ("main", "PropsFull2", "C09_item_parse"), ("main", "PropsFull2", "C09_item_render"), ("main", "PropsFull2", "C09_quote_parse"), ("main", "PropsFull2", "C09_quote_render"), ("main", "PropsFull", "C09_item_blocks"), ("main", "IFull3", "parseFull_item"), ("main", "IFull", "renderDoc_item"), ("main", "IFull4", "parseFull_item_final"), ("main", "QFull", "parseFull_quote"), ("main", "QFull", "renderDoc_quote"), ("main", "QFull", "parseInlines_quote_leaves"), ("main", "QFullRefuted", "parseFull_quote_qI_refuted"), ("main", "ItemSimMain", "parseBlocks_item"), ("main", "ItemSimQLine", "processLine_item"), ("main", "QS2Spec2", "parseBlocks_quote"), ("main", "QS2Main", "parseBlocks_quote_T58"), ("main", "QRdrOcp", "q_onCloseParagraph"), ("main", "QuoteSimMain", "parseBlocks_quote_main_partial"), ("main", "QuoteSimMain", "parseBlocks_quote_single_root_partial"), ("main", "QuoteSimQLine", "processLine_quoted"), ("main", "QuoteSimTest", "parseBlocks_quote_naive_refuted"), ("main", "SliceNest", "C09_quote"), ("main", "SliceNest", "C09_bullet_item"), ("main", "SliceNest", "C09_ordered_item"), ("main", "SliceMulti", "C09_quote_lines"),
                    ("main", "L2CCfull", "parseFull_contain"), ("main", "NoPanicAll", "parseBlocks_no_panic")]
-    assumptions = ["block-quote clause, full on the model as the property states it: for every non-empty document D without tab, CR and NUL, parseFull of D with '> ' before every line is exactly one BlockQuote root whose children are the rewritten blocks of parseFull D under the position map (QFull.parseFull_quote; Text and RawHTML nodes that span lines are cut at every line feed, as the corrected statement says: the version without the cut is refuted, parseFull_quote_qI_refuted), and in every safe-mode configuration (ignoreRaw) the rendering of the quoted document is <blockquote> around the concatenated renderings of the root blocks of D (QFull.renderDoc_quote); the inline simulation needed one fact about the gaps (the byte behind a line feed's image is never ')': it is '>'), without which the core statement is false (witness proved)", "block-quote clause at the block layer, full: for EVERY non-empty document D without tab, CR and NUL (QS2Spec2.parseBlocks_quote = QuoteSimDefs.parseBlocks_quote_statement): parseBlocks of D with '> ' before every line is exactly one BlockQuote root over the whole input whose children are the blocks of all roots of D under the explicit position map, lastLineBlank flags exact, Text nodes of definitions split at line ends as the corrected statement says; link reference definitions included (a bisimulation of the multi-line reader under per-entry shifts, lifted through every scanner, collectTextNodes and the definition loop); list-item clause at the block layer, full (ItemSimMain.parseBlocks_item = ItemSimDefs.parseBlocks_item_statement): for every bullet marker and every ordered marker of 1-9 digits, every N in 1..4 and every tab-free non-empty D whose first byte is not a space and which has no whitespace-only line, provided the marker line is not a thematic break, parseBlocks of the indented document is exactly one List root > one ListItem (indent W+N, the marker's delimiter) > ListMarker followed by the blocks of all roots of D under the position map p + K*(lines before p + 1), definitions included; the one-item list is NOT always tight (the document '> - a', '>', 'b' under '- ' is loose: the bare '>' line sets lastLineBlank on the inner list), so the theorem states looseness as it comes out; what the property adds beyond the block layer (the inline pass inside the container and the rendering) is proved on slices and otherwise decided by the nesting oracle", "earlier, weaker form: for every non-empty document D without tab, CR, NUL and without '[': parseBlocks of D with '> ' before every line is exactly one BlockQuote root over the whole input whose children are the blocks of all roots of D under the explicit position map (every span, inline entry, kind, indent, number, delimiter, loose flag and nested flag equal; QuoteSimMain.parseBlocks_quote_main_partial, by a two-stage per-line simulation: nest one level deeper, relocate); two corrections to the naive statement, each with its witness as a theorem: the internal lastLineBlank flag of the quote's top-level children differs (blank lines between roots are skipped in the plain run, processed inside the quote) and a Text node spanning lines inside a definition is split at line ends; '[' is excluded because the link-reference-definition reader would have to be relocated under per-span shifts with fuel adequacy; the list-item clause is not treated at this generality", "end to end (rendering included) on a slice: for text lines of any length (letters, digits, single spaces, escaped punctuation), '> ' before one line, or before each of several lines forming one paragraph, yields one block quote whose content is exactly the paragraph shifted by the prefix-removal map, and the rendering is <blockquote> around the rendering of D (SliceNest.C09_quote, SliceMulti.C09_quote_lines); one line behind a bullet or one-digit ordered marker yields the one-item list with [marker; paragraph shifted] (C09_bullet_item, C09_ordered_item); for general D the property is decided by the nesting oracle on the implementation (safe-mode HTML of D vs. of the contents of quote(D) / item(D)) and by the correspondence of model and implementation on D, quote(D) and item(D)"]
+    assumptions = ["list-item clause, full on the model as the property states it: for every bullet or ordered marker, N in 1..4 and tab-free D without whitespace-only lines whose marker line is not a thematic break, parseFull of the indented document is the one-item list whose children are the rewritten blocks of parseFull D under the position map (IFull3.parseFull_item) and in every safe-mode configuration its rendering is <ul>/<ol [start=n]><li> around the renderings of D's root blocks, paragraphs without <p> exactly when the list comes out tight (IFull.renderDoc_item)", "block-quote clause, full on the model as the property states it: for every non-empty document D without tab, CR and NUL, parseFull of D with '> ' before every line is exactly one BlockQuote root whose children are the rewritten blocks of parseFull D under the position map (QFull.parseFull_quote; Text and RawHTML nodes that span lines are cut at every line feed, as the corrected statement says: the version without the cut is refuted, parseFull_quote_qI_refuted), and in every safe-mode configuration (ignoreRaw) the rendering of the quoted document is <blockquote> around the concatenated renderings of the root blocks of D (QFull.renderDoc_quote); the inline simulation needed one fact about the gaps (the byte behind a line feed's image is never ')': it is '>'), without which the core statement is false (witness proved)", "block-quote clause at the block layer, full: for EVERY non-empty document D without tab, CR and NUL (QS2Spec2.parseBlocks_quote = QuoteSimDefs.parseBlocks_quote_statement): parseBlocks of D with '> ' before every line is exactly one BlockQuote root over the whole input whose children are the blocks of all roots of D under the explicit position map, lastLineBlank flags exact, Text nodes of definitions split at line ends as the corrected statement says; link reference definitions included (a bisimulation of the multi-line reader under per-entry shifts, lifted through every scanner, collectTextNodes and the definition loop); list-item clause at the block layer, full (ItemSimMain.parseBlocks_item = ItemSimDefs.parseBlocks_item_statement): for every bullet marker and every ordered marker of 1-9 digits, every N in 1..4 and every tab-free non-empty D whose first byte is not a space and which has no whitespace-only line, provided the marker line is not a thematic break, parseBlocks of the indented document is exactly one List root > one ListItem (indent W+N, the marker's delimiter) > ListMarker followed by the blocks of all roots of D under the position map p + K*(lines before p + 1), definitions included; the one-item list is NOT always tight (the document '> - a', '>', 'b' under '- ' is loose: the bare '>' line sets lastLineBlank on the inner list), so the theorem states looseness as it comes out; what the property adds beyond the block layer (the inline pass inside the container and the rendering) is proved on slices and otherwise decided by the nesting oracle", "earlier, weaker form: for every non-empty document D without tab, CR, NUL and without '[': parseBlocks of D with '> ' before every line is exactly one BlockQuote root over the whole input whose children are the blocks of all roots of D under the explicit position map (every span, inline entry, kind, indent, number, delimiter, loose flag and nested flag equal; QuoteSimMain.parseBlocks_quote_main_partial, by a two-stage per-line simulation: nest one level deeper, relocate); two corrections to the naive statement, each with its witness as a theorem: the internal lastLineBlank flag of the quote's top-level children differs (blank lines between roots are skipped in the plain run, processed inside the quote) and a Text node spanning lines inside a definition is split at line ends; '[' is excluded because the link-reference-definition reader would have to be relocated under per-span shifts with fuel adequacy; the list-item clause is not treated at this generality", "end to end (rendering included) on a slice: for text lines of any length (letters, digits, single spaces, escaped punctuation), '> ' before one line, or before each of several lines forming one paragraph, yields one block quote whose content is exactly the paragraph shifted by the prefix-removal map, and the rendering is <blockquote> around the rendering of D (SliceNest.C09_quote, SliceMulti.C09_quote_lines); one line behind a bullet or one-digit ordered marker yields the one-item list with [marker; paragraph shifted] (C09_bullet_item, C09_ordered_item); for general D the property is decided by the nesting oracle on the implementation (safe-mode HTML of D vs. of the contents of quote(D) / item(D)) and by the correspondence of model and implementation on D, quote(D) and item(D)"]
 
     def jobs(self, seed, tier):
         base = nest_docs(seed, tier)
